@@ -173,28 +173,40 @@ def writeControl (c : Control) (token : Option Token) (ack : Nat) (cap : Nat) : 
        else .panic "ControlPacket::write: result.len() <= MAX_PACKETSIZE")
   | r => r
 
-/-- the `Chunks` arm of `ConnectedPacket::write_impl` -/
-def writeChunks (t : Huffman.Table) (ack : Nat) (token : Option Token) (requestResend : Bool)
-    (numChunks : Nat) (payload : List UInt8) (cap : Nat) : WriteResult :=
-  -- `token_buffer.write(..)` is `io::Write for ArrayVec`: silently truncates at 2048 bytes
-  let payload' := match token with
-    | some tk => (payload ++ tk.toList).take TOKEN_BUFFER_CAP
-    | none => payload
-  let comp := Huffman.compressInto t false payload' COMPRESSION_BUFFER_CAP
-  let useComp := match comp with
-    | some s => decide (s.length < payload'.length)
-    | none => false
+/-- `token_buffer`: payload and token copied through `io::Write for ArrayVec<[u8; 2048]>`, which
+truncates silently at the capacity -/
+def tokenExtend (payload : List UInt8) (token : Option Token) : List UInt8 :=
+  match token with
+  | some tk => (payload ++ tk.toList).take TOKEN_BUFFER_CAP
+  | none => payload
+
+/-- the compression decision of `write_impl`: `some s` = the compressed form `s` is sent (it fitted
+into the 2048-byte buffer and is strictly shorter than `p`), `none` = `p` is sent as it is -/
+def chooseCompression (t : Huffman.Table) (p : List UInt8) : Option (List UInt8) :=
+  match Huffman.compressInto t false p COMPRESSION_BUFFER_CAP with
+  | some s => if s.length < p.length then some s else none
+  | none => none
+
+/-- the `Chunks` arm of `ConnectedPacket::write_impl` after the token was appended -/
+def writeChunksCore (t : Huffman.Table) (ack : Nat) (requestResend : Bool) (numChunks : Nat)
+    (p : List UInt8) (cap : Nat) : WriteResult :=
+  let comp := chooseCompression t p
   let flags := (if requestResend then PACKETFLAG_REQUEST_RESEND else 0)
-               ||| (if useComp then PACKETFLAG_COMPRESSION else 0)
+               ||| (if comp.isSome then PACKETFLAG_COMPRESSION else 0)
   match PacketHeader.pack { flags := flags, ack := ack, numChunks := numChunks } with
   | none => .panic "PacketHeader::pack"
   | some hdr =>
   match bufWrite cap [] (ofNat3 hdr) with
   | none => .capacity
   | some b1 =>
-  match bufWrite cap b1 (if useComp then comp.getD [] else payload') with
+  match bufWrite cap b1 (comp.getD p) with
   | none => .capacity
   | some b2 => .ok b2
+
+/-- the `Chunks` arm of `ConnectedPacket::write_impl` -/
+def writeChunks (t : Huffman.Table) (ack : Nat) (token : Option Token) (requestResend : Bool)
+    (numChunks : Nat) (payload : List UInt8) (cap : Nat) : WriteResult :=
+  writeChunksCore t ack requestResend numChunks (tokenExtend payload token) cap
 
 /-- `write_connless_packet` -/
 def writeConnless (payload : List UInt8) (cap : Nat) : WriteResult :=
@@ -396,6 +408,52 @@ def readControl (h : PacketHeader) (token : Option Token) (payload : List UInt8)
       (w0 ++ w1 ++ w2 ++ w3, .ok (.close (pl.take nul), some { src := src, off := off + 1 }))
     else (w0 ++ w1 ++ w2, .error .unknownControl)
 
+/-- embedding of the panic-free part of the reader -/
+def ReadResult.lift : Except (ReadError × List Warning) ReadOk → ReadResult
+  | .ok r => .ok r
+  | .error (e, ws) => .err e ws
+
+/-- `read_impl` for a connectionless header: `payload0` = the bytes after the 3-byte header -/
+def readConnless (bytes payload0 : List UInt8) (wh : List Warning) :
+    Except (ReadError × List Warning) ReadOk :=
+  if payload0.length < PADDING_SIZE_CONNLESS then .error (.shortConnless, wh)
+  else
+    let padding := payload0.take PADDING_SIZE_CONNLESS
+    let payload := payload0.drop PADDING_SIZE_CONNLESS
+    let wp : List Warning :=
+      if ¬ allEq 0xff padding ∨ ¬ allEq 0xff (bytes.take 3) then [.connlessPadding] else []
+    .ok { pkt := .connless payload, warns := wh ++ wp,
+          loc := some { src := .input, off := HEADER_SIZE + PADDING_SIZE_CONNLESS }, scratch := [] }
+
+/-- `read_impl` after the (possibly decompressed) payload of a connected packet has been located:
+`payload` lives at offset `HEADER_SIZE` of `src`. No panic site is left in this part. -/
+def readBody (h : PacketHeader) (wh : List Warning) (payload : List UInt8) (src : Src)
+    (scratch : List UInt8) (tokenHint : Option Bool) : Except (ReadError × List Warning) ReadOk :=
+  if payload.length > READ_PAYLOAD_LIMIT then .error (.compression, wh)
+  else
+    let hasToken : Bool := match tokenHint with
+      | some b => b
+      | none => hasTokenHeuristic (h.flags &&& PACKETFLAG_CONTROL ≠ 0) h.numChunks payload
+    if hasToken ∧ payload.length < TOKEN_SIZE then .error (.tokenMissing, wh)
+    else
+      let (payload, token) : List UInt8 × Option Token :=
+        if hasToken then
+          let tb := payload.drop (payload.length - TOKEN_SIZE)
+          (payload.take (payload.length - TOKEN_SIZE),
+           some ⟨tb.getD 0 0, tb.getD 1 0, tb.getD 2 0, tb.getD 3 0⟩)
+        else (payload, none)
+      if h.flags &&& PACKETFLAG_CONTROL ≠ 0 then
+        match readControl h token payload src HEADER_SIZE with
+        | (ws, .error e) => .error (e, wh ++ ws)
+        | (ws, .ok (c, loc)) =>
+          .ok { pkt := .connected h.ack token (.control c), warns := wh ++ ws, loc := loc,
+                scratch := scratch }
+      else
+        let rr : Bool := h.flags &&& PACKETFLAG_REQUEST_RESEND ≠ 0
+        let wn : List Warning := if h.numChunks = 0 ∧ ¬ rr then [.chunksNoChunks] else []
+        .ok { pkt := .connected h.ack token (.chunks rr h.numChunks payload), warns := wh ++ wn,
+              loc := some { src := src, off := HEADER_SIZE }, scratch := scratch }
+
 /-- `Packet::read_impl`. `buffer = some cap`: `Packet::read` with a scratch buffer of `cap` free
 bytes; `buffer = none`: `read_panic_on_decompression`. -/
 def read (t : Huffman.Table) (bytes : List UInt8) (tokenHint : Option Bool) (buffer : Option Nat) :
@@ -405,58 +463,20 @@ def read (t : Huffman.Table) (bytes : List UInt8) (tokenHint : Option Bool) (buf
   else if bytes.length > MAX_PACKETSIZE then .err .tooLong []
   else match bytes with
   | b0 :: b1 :: b2 :: payload0 =>
-    let (h, wh) := PacketHeader.unpackWarn b0.toNat b1.toNat b2.toNat
-    if h.flags &&& PACKETFLAG_CONNLESS ≠ 0 then
-      if payload0.length < PADDING_SIZE_CONNLESS then .err .shortConnless wh
-      else
-        let padding := payload0.take PADDING_SIZE_CONNLESS
-        let payload := payload0.drop PADDING_SIZE_CONNLESS
-        let wp : List Warning :=
-          if ¬ allEq 0xff padding ∨ ¬ allEq 0xff (bytes.take 3) then [.connlessPadding] else []
-        .ok { pkt := .connless payload, warns := wh ++ wp,
-              loc := some { src := .input, off := HEADER_SIZE + PADDING_SIZE_CONNLESS }, scratch := [] }
-    else
-      -- decompression
-      let dec : Except ReadResult (List UInt8 × Src × List UInt8) :=
-        if h.flags &&& PACKETFLAG_COMPRESSION ≠ 0 then
-          match buffer with
-          | none => .error (.panic "read_panic_on_decompression called on compressed packet")
-          | some cap =>
-            match decompress t bytes cap with
-            | .ok s =>
-              if s.length < HEADER_SIZE then .error (.panic "ref_and_rest_from(decompressed).unwrap()")
-              else .ok (s.drop HEADER_SIZE, .scratch, s)
-            | .capacity => .error (.err .compression wh)
-            | .panic site => .error (.panic site)
-            | .diverge => .error .diverge
-        else .ok (payload0, .input, [])
-      match dec with
-      | .error r => r
-      | .ok (payload, src, scratch) =>
-      if payload.length > READ_PAYLOAD_LIMIT then .err .compression wh
-      else
-        let hasToken := match tokenHint with
-          | some b => b
-          | none => hasTokenHeuristic (h.flags &&& PACKETFLAG_CONTROL ≠ 0) h.numChunks payload
-        if hasToken ∧ payload.length < TOKEN_SIZE then .err .tokenMissing wh
-        else
-          let (payload, token) : List UInt8 × Option Token :=
-            if hasToken then
-              let tb := payload.drop (payload.length - TOKEN_SIZE)
-              (payload.take (payload.length - TOKEN_SIZE),
-               some ⟨tb.getD 0 0, tb.getD 1 0, tb.getD 2 0, tb.getD 3 0⟩)
-            else (payload, none)
-          if h.flags &&& PACKETFLAG_CONTROL ≠ 0 then
-            match readControl h token payload src HEADER_SIZE with
-            | (ws, .error e) => .err e (wh ++ ws)
-            | (ws, .ok (c, loc)) =>
-              .ok { pkt := .connected h.ack token (.control c), warns := wh ++ ws, loc := loc,
-                    scratch := scratch }
-          else
-            let rr : Bool := h.flags &&& PACKETFLAG_REQUEST_RESEND ≠ 0
-            let wn : List Warning := if h.numChunks = 0 ∧ ¬ rr then [.chunksNoChunks] else []
-            .ok { pkt := .connected h.ack token (.chunks rr h.numChunks payload), warns := wh ++ wn,
-                  loc := some { src := src, off := HEADER_SIZE }, scratch := scratch }
+    let hw := PacketHeader.unpackWarn b0.toNat b1.toNat b2.toNat
+    if hw.1.flags &&& PACKETFLAG_CONNLESS ≠ 0 then .lift (readConnless bytes payload0 hw.2)
+    else if hw.1.flags &&& PACKETFLAG_COMPRESSION ≠ 0 then
+      match buffer with
+      | none => .panic "read_panic_on_decompression called on compressed packet"
+      | some cap =>
+        match decompress t bytes cap with
+        | .ok s =>
+          if s.length < HEADER_SIZE then .panic "ref_and_rest_from(decompressed).unwrap()"
+          else .lift (readBody hw.1 hw.2 (s.drop HEADER_SIZE) .scratch s tokenHint)
+        | .capacity => .err .compression hw.2
+        | .panic site => .panic site
+        | .diverge => .diverge
+    else .lift (readBody hw.1 hw.2 payload0 .input [] tokenHint)
   | _ => .err .tooShort []
 
 /-- the byte-slice field of a packet -/
